@@ -34,6 +34,9 @@ ASSUMPTIONS = [
     "from any of the cells whose closed extent contains it",
     "a feature is demanded in a cell only if one of its segments reaches the cell shrunk by 1e-9 cell units; "
     "a neighbourhood membership is demanded only if the feature has a point within d*(1-1e-9)",
+    "rounding-decided zone (DESIGN section 6): a path-query vertex or feature vertex within 1e-9 cell units of a grid "
+    "corner but not exactly on it is excluded (query skipped / feature not demanded) and counted as 'rounding-excluded-*'; "
+    "vertices exactly on corners and on borders stay in",
     "reference geometry: vt.oracle.seg_hits_rect (Liang-Barsky), vt.oracle.pt_polyline_dist; no tracklib code",
 ]
 
@@ -322,8 +325,17 @@ class _Geo:
         self.xmin, self.ymin, self.dX, self.dY = si.xmin, si.ymin, si.dX, si.dY
         self.cs, self.ls = si.csize, si.lsize
         self.polys = polys
-        self.demanded = demanded
+        # a feature with a vertex in the rounding-decided zone (see fragile) is not demanded
+        self.fragile_feats = [k for k in demanded if any(self.fragile(p[0], p[1]) for p in polys[k])]
+        self.demanded = [k for k in demanded if k not in self.fragile_feats]
         self.cache = {}
+
+    def fragile(self, x, y):
+        """vertex within EPS cell units of a grid corner but not exactly on it (in cell coordinates): whether the
+        segment ending there touches the border next to the corner is decided by rounding alone, not by geometry"""
+        cx, cy = (x - self.xmin) / self.dX, (y - self.ymin) / self.dY
+        fx, fy = abs(cx - round(cx)), abs(cy - round(cy))
+        return fx < EPS and fy < EPS and (fx != 0.0 or fy != 0.0)
 
     def rect(self, i, j):
         return (self.xmin + (i + EPS) * self.dX, self.ymin + (j + EPS) * self.dY,
@@ -409,6 +421,8 @@ def body_point(case):
     si, demanded = _build(case)
     g = _Geo(si, case["feats"], demanded)
     cls, nonsq = _base_cls(case, si)
+    if g.fragile_feats:
+        cls.append("rounding-excluded-feature")
     nt = False
     for q in case["pts"]:
         if not g.inside(q[0], q[1]):
@@ -443,10 +457,15 @@ def body_path(case):
     si, demanded = _build(case)
     g = _Geo(si, case["feats"], demanded)
     cls, nonsq = _base_cls(case, si)
+    if g.fragile_feats:
+        cls.append("rounding-excluded-feature")
     nt = False
     for path in case["paths"]:
         if not all(g.inside(p[0], p[1]) for p in path):
             cls.append("query-outside-extent")
+            continue
+        if any(g.fragile(p[0], p[1]) for p in path):
+            cls.append("rounding-excluded-query")
             continue
         crossed = []
         for s in range(len(path) - 1):
@@ -491,7 +510,10 @@ def body_nbh(case):
     si, demanded = _build(case)
     polys = case["feats"]
     g = _Geo(si, polys, demanded)
+    demanded = g.demanded
     cls, nonsq = _base_cls(case, si)
+    if g.fragile_feats:
+        cls.append("rounding-excluded-feature")
     nt = False
     for x, y, d in case["nbh"]:
         if not g.inside(x, y):
